@@ -331,52 +331,63 @@ pub struct PolicySink {
     pub k: usize,
     pub n: Option<usize>,
     pub j: Option<usize>,
+    /// when the sink is full (`n` bytes are in): `false` = fail, `true` = accept 0 bytes (`Ok(0)`),
+    /// as `impl Write for &mut [u8]` does
+    pub zero_when_full: bool,
     pub calls: usize,
     pub accepted: Vec<u8>,
+    /// a writer that keeps re-sending data would otherwise fill the memory
+    pub runaway: bool,
 }
-impl Write for PolicySink {
-    fn write(&mut self, buf: &[u8]) -> io::Result<usize> {
+pub const SINK_RUNAWAY_LIMIT: usize = 8 << 20;
+impl PolicySink {
+    pub fn new(k: usize, n: Option<usize>, j: Option<usize>, zero_when_full: bool) -> Self {
+        PolicySink { k, n, j, zero_when_full, calls: 0, accepted: Vec::new(), runaway: false }
+    }
+    /// one policy decision for a call offering `total` bytes: Ok(how many to take)
+    fn decide(&mut self, total: usize) -> io::Result<usize> {
         self.calls += 1;
+        if self.accepted.len() > SINK_RUNAWAY_LIMIT || self.calls > 3_000_000 {
+            self.runaway = true;
+            return Err(io::Error::new(io::ErrorKind::Other, "runaway writer"));
+        }
         if let Some(j) = self.j {
             if j >= 2 && self.calls % j == 0 {
                 return Err(io::Error::new(io::ErrorKind::Interrupted, "interrupted"));
             }
         }
-        let mut take = self.k.min(buf.len());
+        let mut take = self.k.min(total);
         if let Some(n) = self.n {
             if self.accepted.len() >= n {
+                if self.zero_when_full {
+                    return Ok(0);
+                }
                 return Err(io::Error::new(io::ErrorKind::Other, "sink failure"));
             }
             take = take.min(n - self.accepted.len());
         }
+        Ok(take)
+    }
+}
+impl Write for PolicySink {
+    fn write(&mut self, buf: &[u8]) -> io::Result<usize> {
+        let take = self.decide(buf.len())?;
         self.accepted.extend_from_slice(&buf[..take]);
         Ok(take)
     }
     /// genuinely gathering: one call = one policy decision on the total offered length, the
     /// accepted bytes are taken across the slices in order (position-based, like `write`)
     fn write_vectored(&mut self, bufs: &[io::IoSlice<'_>]) -> io::Result<usize> {
-        self.calls += 1;
-        if let Some(j) = self.j {
-            if j >= 2 && self.calls % j == 0 {
-                return Err(io::Error::new(io::ErrorKind::Interrupted, "interrupted"));
-            }
-        }
         let total: usize = bufs.iter().map(|b| b.len()).sum();
-        let mut take = self.k.min(total);
-        if let Some(n) = self.n {
-            if self.accepted.len() >= n {
-                return Err(io::Error::new(io::ErrorKind::Other, "sink failure"));
-            }
-            take = take.min(n - self.accepted.len());
-        }
+        let take = self.decide(total)?;
         let mut left = take;
         for b in bufs {
-            let n = left.min(b.len());
-            self.accepted.extend_from_slice(&b[..n]);
-            left -= n;
             if left == 0 {
                 break;
             }
+            let n = left.min(b.len());
+            self.accepted.extend_from_slice(&b[..n]);
+            left -= n;
         }
         Ok(take)
     }
@@ -748,12 +759,15 @@ impl State {
                     Err(_) => "FAIL".into(),
                 },
             },
-            ["SINK", k, n, j] => {
+            ["SINK", k, n, j] | ["SINKZ", k, n, j] => {
                 let k = n!(k);
                 let n = if *n == "-" { None } else { Some(n!(n)) };
                 let j = if *j == "-" { None } else { Some(n!(j)) };
-                let mut sink = PolicySink { k, n, j, calls: 0, accepted: Vec::new() };
+                let mut sink = PolicySink::new(k, n, j, toks[0] == "SINKZ");
                 let r = ProguardCache::write(&ProguardMapping::new(self.mapping), &mut sink);
+                if sink.runaway {
+                    return format!("RUNAWAY the writer offered more than {} bytes / calls without finishing", SINK_RUNAWAY_LIMIT);
+                }
                 let kind = match r {
                     Ok(()) => "ok",
                     Err(e) if e.kind() == io::ErrorKind::WriteZero => "writezero",
